@@ -299,6 +299,7 @@ fn fit_signed(rng: &mut StdRng, bits: u32) -> i64 {
 
 pub fn string_body(rng: &mut StdRng, exotic: bool) -> String {
     let plain = ["", "a", "Hello, World!", "tab\there", "line\nbreak", "quote\"inside", "back\\slash", "nul\0mid", "cr\rlf", "; not a comment",
+                 "C:\\new", "x\\r\\t\\0", "q\\\"", "\\\\n", "\\", "a\\\\", "\"\"",
                  "ends with backslash\\", "\\n literal", "  spaces  ", "%d %s", "'single'"];
     let exo = ["h\u{e9}llo", "\u{4e16}\u{754c}", "\u{1F600}", "a\u{7f}b", "\u{1}\u{2}", "mixed \u{e9}\"\\"];
     if exotic && chance(rng, 50) { pick(rng, &exo).to_string() } else { pick(rng, &plain).to_string() }
@@ -513,7 +514,8 @@ pub fn gen_program(rng: &mut StdRng, cfg: &ProgCfg) -> Vec<GStmt> {
             10 => { // external label in a PC-relative operand
                 let e = if externals.is_empty() { let e = label_name(rng, &mut used); let mut g = GStmt::new(".external", 0, 0, 0, 2); g.lbl = e.clone(); prog.insert(0, g); e } else { externals[0].clone() };
                 if let Some(p) = (0..prog.len()).find(|&p| prog[p].size() == 1 && prog[p].k != ".fill" && p >= i) {
-                    let ls = prog[p].labels.clone(); prog[p] = GStmt::lab(*pick(rng, &["LD", "LEA", "JSR", "BR"]), 1, &e); if prog[p].k == "JSR" { prog[p].a = 0; } prog[p].labels = ls; }
+                    let e2 = respell(rng, &e);
+                    let ls = prog[p].labels.clone(); prog[p] = GStmt::lab(*pick(rng, &["LD", "LEA", "JSR", "BR"]), 1, &e2); if prog[p].k == "JSR" { prog[p].a = 0; } prog[p].labels = ls; }
             }
             11 => { // a statement outside every block
                 let g = plain_stmt(rng, false);
